@@ -1196,9 +1196,11 @@ func lossCases(rec *vcommon.Rec) (fast, slow []*anyCase) {
 			}
 		}
 	}
+	// a carrier without any close signal (KCP), with and without the pre-shared key: the loss is only found by the keep-alive
+	slow = append(slow, mk("udp", "black-hole", "", false), mk("udp+secret", "black-hole", "", false))
 	if rec.Thorough() {
 		fast[0].Probe = true // tcp, FIN while idle: keep trying for 80 s to see whether and when the client recovers (diagnostic)
-		for _, k := range []string{"tcp", "ws", "udp"} {
+		for _, k := range []string{"tcp", "ws"} {
 			slow = append(slow, mk(k, "black-hole", "", false))
 		}
 	}
